@@ -22,6 +22,7 @@ RULE = (
     "Non-trivial = a bin partly covered by a counted read that also extends outside it plus a filtered read overlapping a bin; "
     "distinct = distinct case JSON."
 )
+CLI_SHARE = 4  # one case in CLI_SHARE also goes through the command line (vk/cli.py)
 QUICK = {"examples": 320, "shards": 16, "budget_s": 400, "shrink": False}
 THOROUGH = {"examples": 4800, "shards": 16, "budget_s": 3000}
 ASSUMPTIONS = [
